@@ -22,6 +22,7 @@ type Options struct {
 	MaxDecisions int             // decisions per path
 	MaxCallDepth int
 	SolverTimeMS int
+	HangIsViolation bool // exceeding the step/decision bound is reported as non-termination
 	ModulePrefix string // packages under this prefix always have their initialisers run
 }
 
@@ -129,6 +130,7 @@ func (m *Machine) RunCase(fnName string, s *Solver, opts Options) CaseResult {
 	e := NewExplorer(s)
 	e.Params = opts.Params
 	e.KnownRegions = opts.KnownRegions
+	e.HangIsViolation = opts.HangIsViolation
 	if opts.StepLimit > 0 {
 		e.StepLimit = opts.StepLimit
 	}
